@@ -1,7 +1,7 @@
 //verif:pkg pkg/sidecar/param
 //verif:assume reference decoder written from the documented format and the shipped shell decoder (hack/fuse-demo/wrap_datamon.sh, deserialize_dict): the first two characters are the item and key/value separators; the rest is split on the item separator (empty items dropped); an item holding the key/value separator is name / value (second field), an item without it is a flag set to true
 //verif:assume package reflect is modelled for the value-walking subset the encoder uses (ValueOf, Kind, NumField, Field, Type().Field(i).PkgPath, Interface, Len, Index)
-//verif:assume parameter values: printable ASCII bytes (0x20..0x7e), every byte symbolic; FUSE: coordination point 1 symbolic byte, bundle source path 0..2 symbolic bytes, destination label empty or a fixed letter (thorough: also the source repo 0..1 symbolic byte), the other bundle fields empty, sleep flag both ways; PG: coordination point 1 symbolic byte, ports {1, 5432, 65535}, source label 0..1 symbolic byte, source repo and source bundle empty or a fixed letter (thorough: also the destination message 0..1 symbolic byte)
+//verif:assume parameter values: printable ASCII bytes (0x20..0x7e), every byte symbolic; FUSE: coordination point 1 symbolic byte, context name 1 symbolic byte, bundle source path 0..1 symbolic bytes (thorough 0..2), destination label empty or a fixed letter (thorough: also the source repo empty or a fixed letter), the other bundle fields empty, sleep flag both ways; PG: coordination point 1 symbolic byte, ports {1, 5432, 65535}, source label 0..1 symbolic byte, source repo and source bundle empty or a fixed letter (thorough: also the destination message 0..1 symbolic byte)
 //verif:cover VerifC21FUSE encoded bundle-with-name-only separator-moved-off-default
 //verif:cover VerifC21PG encoded source-without-repo
 package param
@@ -80,28 +80,34 @@ func VerifC21FUSE() {
 	vBudget(100000000)
 	vUnwind(100000)
 	coord := vPrintable("coord", 1)
-	maxPath := 3 // 0..2 symbolic bytes
+	maxPath := 2 // 0..1 symbolic bytes (thorough: 0..2)
+	if vThorough() {
+		maxPath = 3
+	}
 	srcPath := vPrintable("srcPath", vChoose("srcPathLen", maxPath))
 	srcRepo, destLabel := "", ""
 	if vChoose("destLabelSet", 2) == 1 {
 		destLabel = "L"
 	}
-	if vThorough() {
-		srcRepo = vPrintable("srcRepo", vChoose("srcRepoLen", 2))
+	if vThorough() && vChoose("srcRepoSet", 2) == 1 {
+		srcRepo = "R"
 	}
 	sleep := vChoose("sleep", 2) == 1
 	var p FUSEParams
 	p.Globals.SleepInsteadOfExit = sleep
 	p.Globals.CoordPoint = coord
 	p.Globals.ConfigBucketName = "k"
-	p.Globals.ContextName = "x"
+	ctxName := vPrintable("contextName", 1)
+	p.Globals.ContextName = ctxName
 	p.Bundles = []fuseParamsBundleParams{{Name: "b1", SrcPath: srcPath, SrcRepo: srcRepo, DestLabel: destLabel}}
 	if len(srcPath)+len(srcRepo)+len(destLabel) == 0 {
 		vCover("bundle-with-name-only")
 	}
 	env, err := FUSEParamsToEnvVars(p)
+	// values this short leave plenty of separator candidates: encoding has no reason to fail
+	vAssert(err == nil, "short-values-always-encode")
 	if err != nil {
-		return // encoding may fail; it must not produce an ambiguous string
+		return
 	}
 	vCover("encoded")
 	g, ok := env[fuseGlobalsEnvVar]
@@ -111,7 +117,7 @@ func VerifC21FUSE() {
 	}
 	got, flags, dok := vDecode(g)
 	vAssert(dok, "globals-decodable")
-	vAssert(vSameParams(got, map[string]string{"c": coord, "b": "k", "a": "x"}), "globals-decode-to-the-given-parameters")
+	vAssert(vSameParams(got, map[string]string{"c": coord, "b": "k", "a": ctxName}), "globals-decode-to-the-given-parameters")
 	vAssert(flags["S"] == sleep && len(flags) == vB(sleep), "sleep-flag-round-trips")
 	b, ok := env[bundleEnvVarPrefix+"b1"]
 	vAssert(ok && len(env) == 2, "one-variable-per-bundle")
@@ -179,6 +185,7 @@ func VerifC21PG() {
 		vCover("source-without-repo")
 	}
 	env, err := PGParamsToEnvVars(p)
+	vAssert(err == nil, "short-values-always-encode")
 	if err != nil {
 		return
 	}
